@@ -843,8 +843,8 @@ class Cache:
 
             if rows:
                 ((rowid, old_filename),) = rows
-                cleanup(old_filename)
                 self._row_update(rowid, now, columns)
+                cleanup(old_filename)
             else:
                 self._row_insert(db_key, raw, now, columns)
 
@@ -1047,8 +1047,8 @@ class Cache:
                     cleanup(filename)
                     return False
 
-                cleanup(old_filename)
                 self._row_update(rowid, now, columns)
+                cleanup(old_filename)
             else:
                 self._row_insert(db_key, raw, now, columns)
 
